@@ -3,6 +3,7 @@ import RbV.Ref.NW
 import RbV.Ref.PoaCheck
 import RbV.Ref.PoaAccept
 import RbV.Model.Poa
+import RbV.Model.PoaBanded
 /-! Driver for property C16 (partial-order alignment).
 
 `c16 <gap>:<xp>:<xs>:<yp>:<ys> <alphabet> <table> <reference> <step>/… => g:<labels>:<edges> c:<cons> | [b:<sc>] s:<sc> o:<ops> [g:… c:…] | …`
@@ -21,8 +22,9 @@ Clauses decided here, all with the proved functions of `RbV/Ref`:
 Nothing is asserted about scores or operations of `semiglobal`/`local`/`custom`/narrow bands.
 
 The mirror model `RbV/Model/Poa.lean` is evaluated alongside: `global` DP + traceback on the current graph,
-`add_alignment` on the observed operations (every mode), `consensus` on every dump, and `chainScore`
-(proved equal to the optimum) on the linear graph.  Differences are tags `drift-*`, never violations. -/
+`add_alignment` on the observed operations (every mode), `consensus` on every dump, `chainScore`
+(proved equal to the optimum) on the linear graph, and `bandedScore` (`RbV/Model/PoaBanded.lean`, any
+bandwidth, configured clip penalties) against every score `global_banded` reports.  Differences are tags `drift-*`, never violations. -/
 namespace RbV.Drv.C16
 open RbV.Codec RbV.NW RbV.Poa
 
@@ -150,7 +152,7 @@ def checkCons (st : St) (d : Dump) (c : String) (at_ : String) : St :=
 
 def fullBand (st : Step) (m : Nat) : Bool := st.bw ≥ m && st.bw ≥ st.query.length
 
-def stepCheck (sc : Sc) (clipsDefault uniq : Bool) (ref : List Nat) (st : St) (idx : Nat) (sp : Step) (g : Grp) : St :=
+def stepCheck (sc : Sc) (xp yp : Int) (clipsDefault uniq : Bool) (ref : List Nat) (st : St) (idx : Nat) (sp : Step) (g : Grp) : St :=
   if st.stopped || st.bad.isSome then st else
   let at_ := toString idx
   let st := st.tag ("mode-" ++ sp.mode)
@@ -203,7 +205,16 @@ def stepCheck (sc : Sc) (clipsDefault uniq : Bool) (ref : List Nat) (st : St) (i
       if sp.mode = "g" then
         let (ms, mops) := Model.globalAlign sc st.cur.labels st.cur.wes sp.query
         let st := if ms ≠ s then st.tag "drift-global-score" else st
-        if mops ≠ ops then st.tag "drift-global-ops" else st
+        let st := if mops ≠ ops then st.tag "drift-global-ops" else st
+        -- the extra banded run of a `g` step against the model of `global_banded`
+        match g.b.bind parseInt with
+        | some b =>
+          if Model.bandedScore sc xp yp st.cur.labels st.cur.wes sp.query sp.bw ≠ b then st.tag "drift-banded-score"
+          else st.tag "banded-model"
+        | none => st
+      else if sp.mode = "b" then
+        if Model.bandedScore sc xp yp st.cur.labels st.cur.wes sp.query sp.bw ≠ s then st.tag "drift-banded-score"
+        else st.tag "banded-model"
       else st
     let st := if hasClip ops then st.tag "clip-ops" else st
     let st := if sp.mode = "b" && !fullBand sp m then st.tag "narrow-band" else st
@@ -273,7 +284,7 @@ def verdict (toks : List String) (out : String) : String :=
           let st := if uniq then st.tag "uniq-scheme" else st
           let st := if !clipsDefault then st.tag "clip-penalties" else st
           if gs.length > steps.length then "bad-op more-groups-than-steps" else
-          let st := ((steps.zip gs).zipIdx).foldl (fun st ((sp, g), i) => stepCheck sc clipsDefault uniq ref st i sp g) st
+          let st := ((steps.zip gs).zipIdx).foldl (fun st ((sp, g), i) => stepCheck sc xp yp clipsDefault uniq ref st i sp g) st
           match st.bad with
           | some b => "bad-op " ++ b
           | none =>
